@@ -306,6 +306,8 @@ pub fn exec_action(w: &Rc<World>, a: &Action) {
             let ff = fresh_flag.clone();
             let underlying = move |key: i64| -> Incr<i64> {
                 let w = weak.upgrade().expect("memo fn outlived the world");
+                // a memoised constructor is user code too: a crash point when it runs inside stabilise
+                w.crash_point();
                 let hid = w.next_hid();
                 let mut lg = logged(&w, hid, vec![]);
                 let n = input.map(move |x: &i64| {
